@@ -24,5 +24,9 @@ def main():
         ty = '\n'.join(x[5:] if x.startswith('       ') else x.strip() for x in ty.split('\n'))
         if comment: body.append('(* %s *)' % comment)
         body.append('Theorem %s :\n  %s.\nProof. exact %s. Qed.\nPrint Assumptions %s.\n' % (n, ty.replace('\n', '\n  '), l, n))
-    open(os.path.join(COQ, 'Props', prop + '.v'), 'w').write('\n'.join(body))
+    path = os.path.join(COQ, 'Props', prop + '.v')
+    if os.environ.get('APPEND'):       # add to an existing Props file: a titled block with its own imports
+        open(path, 'a').write('\n' + '\n'.join(body))
+    else:
+        open(path, 'w').write('\n'.join(body))
 if __name__ == '__main__': main()
